@@ -34,6 +34,10 @@ pub fn adversarial_alphabet(lang: &str) -> Vec<&'static str> {
         // a singleton composition: one character replaced by one other character (length unchanged)
         a.push("\u{212b}");
     }
+    if lang == "xr" {
+        // a separator that the language's reductions lengthen
+        a.push("\u{2026}");
+    }
     a
 }
 
